@@ -29,7 +29,7 @@ SUFFIXES = ["", "#", ["a"], ["0"], ["~", "/"], ["é", ""], ["m~n", "a/b", "10"]]
 
 
 def plan(tier, seed):
-    specs = [{"kind": "exhaustive", "first": t} for t in ALPHABET] + [{"kind": "exhaustive", "first": None}, {"kind": "syntax"}]
+    specs = [{"kind": "exhaustive", "first": t} for t in ALPHABET] + [{"kind": "exhaustive", "first": None}, {"kind": "syntax"}, {"kind": "backslash"}]
     for _ in range(4 if tier == "quick" else 14):
         specs.append({"kind": "depth3", "n": 6000 if tier == "quick" else 40000})
     return specs
@@ -130,6 +130,29 @@ def run(spec, ctx):
             suffix = r.choice(SUFFIXES)
             ctx.case(h(base, steps, offset, suffix))
             check(ctx, base, steps, offset, suffix)
+    elif spec["kind"] == "backslash":
+        # suffix tokens that still contain a backslash sequence after one decoding: the
+        # result must append exactly the tokens the suffix pointer itself has (decoded once)
+        from jsonpath import JSONPointer
+
+        for suffix in ("/\\u005cu0041", "/a/\\u005cn", "/\\u005c\\u005c", "/\\u005cu00e9/x", "/\\u0041", "/\\u00e9", "/\\ud83d\\ude00", "/a\\u002fb"):
+            for base in ("/a/b", "/0/1", ""):
+                for steps in (0, 1):
+                    if steps > len(rp.decode(base)):
+                        continue
+                    ctx.evaluation()
+                    ctx.case(h("bs", suffix, base, steps))
+                    text = "%d%s" % (steps, suffix)
+                    case = {"backslash": True, "base": base, "text": text}
+                    want = impl.call(lambda: str(JSONPointer(rp.encode(rp.decode(base)[: len(rp.decode(base)) - steps]))) + str(JSONPointer(suffix)))
+                    if not want.ok:
+                        continue
+                    for name, fn in (("rel.to(pointer)", lambda: RelativeJSONPointer(text).to(JSONPointer(base))), ("rel.to(text)", lambda: RelativeJSONPointer(text).to(base)), ("pointer.to(text)", lambda: JSONPointer(base).to(text))):
+                        o = impl.call(fn)
+                        ctx.count("backslash_suffix_applications")
+                        if not o.ok or str(o.value) != want.value:
+                            ctx.violation("suffix-tokens-differ-from-the-suffix-pointer's-own-tokens", case, {"base": base, "relative": text, "route": name, "got": o.desc() if not o.ok else str(o.value), "expected": want.value})
+                            break
     else:
         for text in ("01", "00", "01/a", "0+0", "0-0", "0+01", "0-01", "+1", "-1", "a", "", "0+", "0-", "1.5", "0 1", "#", "/a", "0+1+1", "0++1", "0##", "1#/a", "0+a"):
             ctx.evaluation()
@@ -160,5 +183,7 @@ def finalize(m, tier):
 def replay(case, ctx):
     if "syntax" in case:
         run({"kind": "syntax"}, ctx)
+    elif case.get("backslash"):
+        run({"kind": "backslash"}, ctx)
     else:
         check(ctx, tuple(case["base"]), case["steps"], case["offset"], case["suffix"])
